@@ -4,12 +4,12 @@
 # null tests, merged loads - is part of what a user gets).  Both run every sub-check.
 set -e
 . $MC/par.sh
-CF="-std=c++17 -g -fsanitize=address -fno-omit-frame-pointer -I$REPO -I$MC"
+CF="-std=c++20 -g -fsanitize=address -fno-omit-frame-pointer -I$REPO -I$MC"
 par g++ -c -O1 $CF $VERIF/harness/c01/c01_lists.cpp -o $BUILD/h.o
 par g++ -c -O1 $CF $REPO/igris/container/dlist.cpp -o $BUILD/dlist.o
 par clang++ -c -O2 -DNDEBUG $CF $VERIF/harness/c01/c01_lists.cpp -o $BUILD/h_clang.o
 par clang++ -c -O2 -DNDEBUG $CF $REPO/igris/container/dlist.cpp -o $BUILD/dlist_clang.o
-par g++ -std=c++17 -O2 -c -I$MC $MC/mc.cpp -o $BUILD/mc.o
+par g++ -std=c++20 -O2 -c -I$MC $MC/mc.cpp -o $BUILD/mc.o
 par gcc -c -O1 -I$REPO $REPO/igris/dprint/dprint_func_impl.c -o $BUILD/dprint.o
 par gcc -c -O1 -I$REPO $REPO/igris/dprint/dprint_stub.c -o $BUILD/dstub.o
 parwait
